@@ -329,7 +329,10 @@ func VerifDump(c *Cache[int, int]) (fwd, bwd [][2]int, n int) {
 `), 0o644)
 	// ops: deterministic
 	r := rand.New(rand.NewSource(20260930))
-	type op struct{ add bool; k, v int }
+	type op struct {
+		add  bool
+		k, v int
+	}
 	var traces [][]op
 	var caps []int
 	for t := 0; t < 80; t++ {
